@@ -2,7 +2,8 @@ from checks import both, EX
 
 CHECK = {
     'level': 'exploration',
-    'rule': ('closure generator over hash-table states: every operation of the alphabet (insert, find with no/rejecting/'
+    'rule': ('[keys and shapes] a fourth key family of boundary keys (0, 1, SIZE_MAX, SIZE_MAX-1, 2^63+-1, 2^32+-1, 2^31 ...) in own closure scopes and a quarter of the random histories, tracked as FIRST key after init / resize / completed rehash / clear; exact doublings 3->6, 5->10, 7->14, 6->12, 4->8; cstl_hash_div/mul passed directly; visitors of find/foreach/foreach_const call size/load and a nested foreach_const on the same table and work a bystander table; everything but resize/shrink_to_fit runs with a refusing allocator in every second case; '
+             'closure generator over hash-table states: every operation of the alphabet (insert, find with no/rejecting/'
              'accepting visitor, erase of a member / of a non-member object, resize to 0..B buckets with NULL or one of two '
              'hash functions incl. while a rehash is pending, rehash, shrink_to_fit, swap) applied in every reachable table '
              'state of a small scope (signature = element count, bucket count, capacity, pending geometry, sweep index, '
